@@ -153,9 +153,10 @@ func (e *StoreEnv) Close() {
 func StoreModel() *Model {
 	c1 := condPool[0]
 	return &Model{
-		Types: []string{"user", "group", "folder", "doc"},
+		Types: []string{"user", "group", "folder", "doc", "do"},
 		Conds: []CondDef{c1},
 		Rels: []RelDef{
+			{T: "do", R: "viewer", Rw: &Rewrite{K: "this"}, Restr: []Restr{{T: "user"}}}, // a type whose name is a prefix of another's
 			{T: "group", R: "member", Rw: &Rewrite{K: "this"}, Restr: []Restr{{T: "user"}, {T: "user", Cond: "c1"}}},
 			{T: "folder", R: "parent", Rw: &Rewrite{K: "this"}, Restr: []Restr{{T: "folder"}}},
 			{T: "folder", R: "viewer", Rw: &Rewrite{K: "this"}, Restr: []Restr{{T: "user"}}},
@@ -173,7 +174,7 @@ func tp(o, r, u string) Tuple { return Tuple{O: ParseObj(o), R: r, U: ParseSubj(
 var ValidKeys = []Tuple{
 	tp("doc:1", "viewer", "user:a"), tp("doc:1", "viewer", "user:b"), tp("doc:1", "viewer", "group:1#member"),
 	tp("doc:1", "viewer", "user:*"), tp("doc:2", "viewer", "user:a"), tp("group:1", "member", "user:a"),
-	tp("doc:1", "parent", "folder:1"), tp("folder:1", "viewer", "user:a"),
+	tp("doc:1", "parent", "folder:1"), tp("folder:1", "viewer", "user:a"), tp("do:1", "viewer", "user:a"),
 }
 
 // condVariants returns the tuple with each admissible / inadmissible condition variant.
